@@ -31,6 +31,7 @@ type FuncResult struct {
 func (e *Engine) VerifyFunc(fn *ssa.Function, fc *FuncContract) (res *FuncResult) {
 	ctx := NewCtx()
 	ctx.tid = e.typeID
+	ctx.standalone = e.standaloneType
 	res = &FuncResult{Name: FuncName(fn), Ctx: ctx, Contract: fc, Used: map[string]bool{}}
 	f := &Frame{eng: e, ctx: ctx, fn: fn, vals: map[ssa.Value]string{}, tuples: map[ssa.Value][]string{},
 		reach: map[*ssa.BasicBlock]string{}, endSt: map[*ssa.BasicBlock]*State{}, contract: fc,
